@@ -43,8 +43,9 @@ def run_dependencies(chk) -> None:
         try:
             importlib.import_module(f'sa.rules.{dep.lower()}').run(shadow)
         except AnalysisError as e:
-            chk.note(f'dependency {dep} could not be evaluated ({e.rule}: {e.why[:160]}); see the {dep} check')
-            continue
+            chk.note(f'dependency {dep} could not be evaluated completely ({e.rule}: {e.why[:160]}); see the {dep} check')
+            if not shadow.findings:
+                continue
         chk.evals(shadow.evaluations)
         for f in shadow.findings:
             chk.fail(rule, f.where, f.qual, f'[{f.rule}] {f.construct}', f'(the statement of {chk.pid} rests on {dep}) {f.reason}', **f.extra)
